@@ -3,16 +3,18 @@
 // x unscale flag; after optimize() every regular basis of the LP (exact enumeration) is installed with setBasis and
 // every row/column of the inverse, the solve, multBasis and multBasisTranspose are compared with exact arithmetic on B.
 #include "vx_spx.hpp"
+#include "vx_planted.hpp"
 using namespace vx;
 
 struct Cfg5 { int rep, scaler, persistent; };
 static std::string cfg_str(const Cfg5& c) { return "rep=" + std::to_string(c.rep) + ",scaler=" + std::to_string(c.scaler) + ",persistent=" + std::to_string(c.persistent); }
 
+static double g_tol = 1e-9;     // relative tolerance of the comparison (1e-9 on the tiny family, 1e-7 on the medium-size planted LPs)
 static bool close_q(double got, const Q& want)
 {
    if(!std::isfinite(got)) return false;
    double w = want.get_d();
-   return fabs(got - w) <= 1e-9 * (1 + fabs(w));
+   return fabs(got - w) <= g_tol * (1 + fabs(w));
 }
 
 // B from basis indices and the harness's copy of the LP
@@ -54,6 +56,8 @@ static std::string check_queries(SoPlex& spx, const XLP& x, bool unscale, Ctx& c
    }
    if(!qinverse(B, Inv)) { c.count("singular_basis_installed"); return ""; }
    c.count("bases_checked");
+   // progress tag for the runner: a crash inside a query is attributed to (query, representation, scaled, unscale)
+   const uint64_t stag = 100 + (((int)spx._solver.rep() > 0 ? 4 : 0) + ((spx._realLP && spx._realLP->isScaled()) ? 2 : 0) + (unscale ? 1 : 0)) * 10;
    std::ostringstream o;
    o.precision(17);
    for(int r = 0; r < m; ++r)
@@ -62,11 +66,22 @@ static std::string check_queries(SoPlex& spx, const XLP& x, bool unscale, Ctx& c
       // with index output the result is scattered into the caller's (zero-initialised) array
       std::fill(coef.begin(), coef.end(), 0.0);
       ninds = -7;
+      set_sub(stag + 0);
       if(!spx.getBasisInverseRowReal(r, coef.data(), inds.data(), &ninds, unscale)) return "query-failed|getBasisInverseRowReal";
       for(int k = 0; k < m; ++k) if(!close_q(coef[k], Inv[r][k])) { o << "getBasisInverseRowReal(" << r << ")[" << k << "] = " << coef[k] << " want " << Inv[r][k].get_str(); return "inverse-row-wrong|" + o.str(); }
       if(ninds >= 0)
       {
          std::set<int> idx(inds.begin(), inds.begin() + std::min(ninds, m));
+         if(g_tol > 1e-9)
+         {
+            // medium-size LPs: an entry that is exactly zero may come out as rounding noise and be listed, so the list is judged against the returned values
+            // (no duplicates, in range, every entry that is significantly nonzero is listed) instead of against the exact zero pattern
+            bool bad = (int)idx.size() != std::min(ninds, m) || ninds > m;
+            for(int k : idx) if(k < 0 || k >= m) bad = true;
+            for(int k = 0; k < m && !bad; ++k) if(fabs(Inv[r][k].get_d()) > 1e-6 && !idx.count(k)) bad = true;
+            if(bad) { o << "getBasisInverseRowReal(" << r << ") index list has duplicates / out-of-range entries or misses a nonzero"; return "inverse-row-index-set-wrong|" + o.str(); }
+         }
+         else
          for(int k = 0; k < m; ++k) if((Inv[r][k] != 0) != (idx.count(k) > 0)) { o << "getBasisInverseRowReal(" << r << ") index list " << ivecstr(std::vector<int>(inds.begin(), inds.begin() + std::min(ninds, m))) << " does not list exactly the nonzeros"; return "inverse-row-index-set-wrong|" + o.str(); }
          c.count("sparse_index_outputs_checked");
       }
@@ -77,11 +92,20 @@ static std::string check_queries(SoPlex& spx, const XLP& x, bool unscale, Ctx& c
       // column r
       std::fill(coef.begin(), coef.end(), 0.0);
       ninds = -7;
+      set_sub(stag + 1);
       if(!spx.getBasisInverseColReal(r, coef.data(), inds.data(), &ninds, unscale)) return "query-failed|getBasisInverseColReal";
       for(int k = 0; k < m; ++k) if(!close_q(coef[k], Inv[k][r])) { o << "getBasisInverseColReal(" << r << ")[" << k << "] = " << coef[k] << " want " << Inv[k][r].get_str(); return "inverse-col-wrong|" + o.str(); }
       if(ninds >= 0)
       {
          std::set<int> idx(inds.begin(), inds.begin() + std::min(ninds, m));
+         if(g_tol > 1e-9)
+         {
+            bool bad = (int)idx.size() != std::min(ninds, m) || ninds > m;
+            for(int k : idx) if(k < 0 || k >= m) bad = true;
+            for(int k = 0; k < m && !bad; ++k) if(fabs(Inv[k][r].get_d()) > 1e-6 && !idx.count(k)) bad = true;
+            if(bad) { o << "getBasisInverseColReal(" << r << ") index list has duplicates / out-of-range entries or misses a nonzero"; return "inverse-col-index-set-wrong|" + o.str(); }
+         }
+         else
          for(int k = 0; k < m; ++k) if((Inv[k][r] != 0) != (idx.count(k) > 0)) { o << "getBasisInverseColReal(" << r << ") index list does not list exactly the nonzeros"; return "inverse-col-index-set-wrong|" + o.str(); }
       }
       c.count("queries", 3);
@@ -94,6 +118,7 @@ static std::string check_queries(SoPlex& spx, const XLP& x, bool unscale, Ctx& c
       std::vector<double> rhs(m), sol(m, 99.0);
       for(int k = 0; k < m; ++k) rhs[k] = v[k].get_d();
       std::vector<double> rhsCopy = rhs;
+      set_sub(stag + 2);
       if(!spx.getBasisInverseTimesVecReal(rhs.data(), sol.data(), unscale)) return "query-failed|getBasisInverseTimesVecReal";
       for(int i = 0; i < m; ++i)
       {
@@ -103,6 +128,7 @@ static std::string check_queries(SoPlex& spx, const XLP& x, bool unscale, Ctx& c
       }
       if(rhs != rhsCopy) c.count("observation.rhs_argument_overwritten");
       std::vector<double> mv = rhsCopy;
+      set_sub(stag + 3);
       if(!spx.multBasis(mv.data(), unscale)) return "query-failed|multBasis";
       for(int i = 0; i < m; ++i)
       {
@@ -111,6 +137,7 @@ static std::string check_queries(SoPlex& spx, const XLP& x, bool unscale, Ctx& c
          if(!close_q(mv[i], w)) { o << "multBasis(v#" << t << ")[" << i << "] = " << mv[i] << " want " << w.get_str(); return "mult-basis-wrong|" + o.str(); }
       }
       mv = rhsCopy;
+      set_sub(stag + 4);
       if(!spx.multBasisTranspose(mv.data(), unscale)) return "query-failed|multBasisTranspose";
       for(int i = 0; i < m; ++i)
       {
@@ -182,6 +209,90 @@ static uint64_t run_case(const TinyLP& t, const Cfg5& cf, Ctx& c)
    return h;
 }
 
+// medium-size planted LP (vx_planted.hpp, power-of-two rescaled so that every scaler chooses non-trivial exponents): the basis the solve ends with, then every
+// basis that iteration-limited solves of the same LP stop at (k = 1, 2, 3, 5, 8, 13, ... iterations; collected on separate objects) installed with setBasis on the
+// solved - possibly persistently scaled - object.  setBasis re-orders the basis positions (basic rows first), which a solve from the slack basis never does.
+static uint64_t run_planted5(const PlantedSpec& sp, const Cfg5& cf, Ctx& c)
+{
+   PlantedLP P = planted(sp);
+   const TinyLP& t = P.lp;
+   XLP x = t.exact();
+   int n = x.n, m = x.m;
+   g_tol = 1e-7;
+   auto configure = [&](SoPlex & s)
+   {
+      quiet(s);
+      s.setIntParam(SoPlex::REPRESENTATION, cf.rep);
+      s.setIntParam(SoPlex::SCALER, cf.scaler);
+      s.setBoolParam(SoPlex::PERSISTENTSCALING, cf.persistent != 0);
+   };
+   typedef std::pair<std::vector<SPxSolver::VarStatus>, std::vector<SPxSolver::VarStatus>> BasisRC;
+   std::vector<BasisRC> bases;
+   int N = 0;
+   {
+      SoPlex ref;
+      configure(ref);
+      ref.setIntParam(SoPlex::SIMPLIFIER, SoPlex::SIMPLIFIER_OFF);
+      load_real(ref, t, 0);
+      ref.optimize();
+      N = ref.numIterations();
+   }
+   for(int k = 1, kp = 1; k < N && bases.size() < 8; )
+   {
+      SoPlex s;
+      configure(s);
+      s.setIntParam(SoPlex::SIMPLIFIER, SoPlex::SIMPLIFIER_OFF);
+      s.setIntParam(SoPlex::ITERLIMIT, k);
+      load_real(s, t, 0);
+      s.optimize();
+      if(s.hasBasis())
+      {
+         BasisRC b(std::vector<SPxSolver::VarStatus>(m + 1), std::vector<SPxSolver::VarStatus>(n + 1));
+         s.getBasis(b.first.data(), b.second.data());
+         bases.push_back(b);
+      }
+      int nk = k + kp; kp = k; k = nk;     // 1, 2, 3, 5, 8, 13, ...
+   }
+   SoPlex spx;
+   configure(spx);
+   load_real(spx, t, 0);
+   spx.optimize();
+   c.count("planted_lp_x_cfg");
+   c.count(std::string("planted_status.") + std::to_string((int)spx.status()));
+   uint64_t h = 3;
+   std::string cs = sp.str() + "#" + cfg_str(cf);
+   auto report = [&](const std::string & res, const std::string & how, bool unscale)
+   {
+      if(res.empty()) return;
+      size_t bar = res.find('|');
+      bool scaled = spx._realLP && spx._realLP->isScaled();
+      int rep = (int)spx._solver.rep();
+      std::string sig = res.substr(0, bar) + "@" + how + ",rep=" + (rep > 0 ? "COL" : "ROW") + "," + (scaled ? "scaled" : "unscaled") + ",unscale=" + std::to_string((int)unscale) + "+planted";
+      c.violation(sig, cs, res.substr(bar + 1).substr(0, 500) + " | cfg " + cfg_str(cf));
+      h = h * 31 + 5;
+   };
+   for(int us = 1; us >= 0; --us)
+   {
+      if(us == 0 && spx._realLP && spx._realLP->isScaled()) continue;
+      if(spx.hasBasis()) report(check_queries(spx, x, us != 0, c), "basis-from-solve", us != 0);
+   }
+   for(auto& b : bases)
+   {
+      spx.setBasis(b.first.data(), b.second.data());
+      c.count("bases_installed");
+      c.count("planted_bases_installed");
+      if(!spx.hasBasis()) { c.violation("setbasis-did-not-install-basis+planted", cs, ""); continue; }
+      for(int us = 1; us >= 0; --us)
+      {
+         if(us == 0 && spx._realLP && spx._realLP->isScaled()) continue;
+         report(check_queries(spx, x, us != 0, c), "basis-from-setBasis", us != 0);
+      }
+   }
+   g_tol = 1e-9;
+   if(c.wantSample() && cf.scaler == 2 && cf.rep == 2) c.sample("{\"planted_lp\":" + jstr(sp.str()) + ",\"config\":" + jstr(cfg_str(cf)) + ",\"iterations\":" + std::to_string(N) + ",\"intermediate_bases\":" + std::to_string(bases.size()) + "}");
+   return h;
+}
+
 int main(int argc, char** argv)
 {
    Args args = parse_args(argc, argv);
@@ -197,10 +308,13 @@ int main(int argc, char** argv)
       p += 9;
       std::string cs = doc.substr(p, doc.find('"', p) - p);
       size_t h = cs.find('#');
-      TinyLP t = TinyLP::parse(cs.substr(0, h));
       Cfg5 cf{0, 0, 0};
       sscanf(cs.c_str() + h, "#rep=%d,scaler=%d,persistent=%d", &cf.rep, &cf.scaler, &cf.persistent);
       mallopt(M_PERTURB, 85);
+      PlantedSpec psp;
+      if(cs.compare(0, 2, "P:") == 0 && PlantedSpec::parse(cs.substr(0, h), psp))
+         return replay_case([&](Ctx & c) { run_planted5(psp, cf, c); });
+      TinyLP t = TinyLP::parse(cs.substr(0, h));
       return replay_case([&](Ctx & c) { run_case(t, cf, c); });
    }
    bool thorough = args.tier == "thorough";
@@ -230,6 +344,24 @@ int main(int argc, char** argv)
       while(raw < lim && !fs.get(raw, t)) ++raw;
       return t.str() + "#" + cfg_str(cfgs[idx % NC]);
    }, o, [&](uint64_t idx, uint64_t) { return "@" + cfg_str(cfgs[idx % NC]); });
+   {
+      static PlantedGrid pg;
+      pg.sizes = {{6, 5}, {10, 8}, {8, 12}, {16, 12}, {12, 20}};
+      pg.densities = {40};
+      pg.seeds = thorough ? 6 : 1;
+      pg.magnitudes = 2;
+      rep.phase("planted LPs up to 16x12 / 12x20 x 42 configurations x bases of the solve and of iteration-limited solves", pg.size() * NC, [&](uint64_t idx, int, Ctx & c) -> uint64_t
+      {
+         return run_planted5(pg.at(idx / NC), cfgs[idx % NC], c);
+      }, [&](uint64_t idx, uint64_t) { return pg.at(idx / NC).str() + "#" + cfg_str(cfgs[idx % NC]); }, o, [&](uint64_t idx, uint64_t sub)
+      {
+         static const char* QN[5] = {"getBasisInverseRowReal", "getBasisInverseColReal", "getBasisInverseTimesVecReal", "multBasis", "multBasisTranspose"};
+         std::string t = "@" + cfg_str(cfgs[idx % NC]) + "+planted";
+         if(sub >= 100 && sub < 200) { int st = (int)(sub - 100) / 10, q = (int)(sub - 100) % 10; t += std::string("|in-") + QN[q < 5 ? q : 0] + ",rep=" + ((st & 4) ? "COL" : "ROW") + "," + ((st & 2) ? "scaled" : "unscaled") + ",unscale=" + ((st & 1) ? "1" : "0"); }
+         return t;
+      });
+      rep.extra["planted_grid"] = jstr("sizes (n x m) 6x5 10x8 8x12 16x12 12x20, density 40 %, degenerate 0/1, min/max, kinds OPT/INF/UNB, plain and power-of-two rescaled, seeds 0.." + std::to_string(pg.seeds - 1) + "; tolerance 1e-7 relative");
+   }
    rep.evaluations = rep.all.counters["queries"];
    rep.rule = "case = (canonical LP of family P, representation x scaler x persistent scaling, every regular basis of the LP installed with setBasis plus the basis the solve "
               "ended with, unscale flag): every row and column of the inverse (dense and sparse index output), the solve and both multiplications on all unit vectors and on (1..m) "
